@@ -31,6 +31,9 @@ def handle (s : Sess) (line : String) : IO Sess := do
   | "tmax" :: ws => match parseRats ws with
       | some v => return { s with cfg := { s.cfg with tmax := v } }
       | none => IO.println "bad-op"; return s
+  | ["shrink", q] => match parseRat? q with
+      | some v => return { s with cfg := { s.cfg with shrink := v } }
+      | none => IO.println "bad-op"; return s
   | ["idx", "none"] => return { s with cfg := { s.cfg with idx := none } }
   | "idx" :: ws => match parseNats ws with
       | some v => return { s with cfg := { s.cfg with idx := some v } }
